@@ -33,6 +33,7 @@ func (p *Parser) Lex(lval *yySymType) int {
 
 	p.currentToken = t
 	lval.token = t
+	verifOnLex(p, t)
 
 	return int(t.ID)
 }
